@@ -2,6 +2,10 @@
  * resolve and dispatch command.
  */
 
+/* request format definitions ("PRI?...") */
+#define __STDC_FORMAT_MACROS
+#include <inttypes.h>
+
 #include <stdlib.h>
 #include <string.h>
 
@@ -49,7 +53,7 @@ static int contextSend(const MPT_STRUCT(reply_context_defer) *ctx, MPT_STRUCT(re
 	mpt_message_buf2id(rd->val, rd->len, &id);
 	
 	if (!ctx->reply.ptr) {
-		mpt_log(0, __func__, MPT_LOG(Warning), "%s %s",
+		mpt_log(0, __func__, MPT_LOG(Warning), "%s (%08" PRIx64 "): %s",
 		        MPT_tr("unable to reply"), id, MPT_tr("no reply target available"));
 		return 0;
 	}
@@ -59,7 +63,7 @@ static int contextSend(const MPT_STRUCT(reply_context_defer) *ctx, MPT_STRUCT(re
 		rd->len = 0;
 	} else {
 		rd->val[0] &= 0x7f;
-		mpt_log(0, __func__, MPT_LOG(Error), "%s %s",
+		mpt_log(0, __func__, MPT_LOG(Error), "%s (%08" PRIx64 "): %s",
 		        MPT_tr("unable to reply"), id, MPT_tr("reply send failed"));
 	}
 	return ret;
